@@ -25,7 +25,7 @@ Init == Rec[1].op = "init" /\ m = FromLog(Rec[1].s) /\ l = 2
 Step ==
   /\ l <= N
   /\ LET r == Rec[l] IN
-     /\ r.op \in {"bus_write", "bus_read", "set_input", "set_di1", "key_int", "checkpoint"}
+     /\ r.op \in SimpleOps \ {"edge", "cpu_reset", "master_reset", "set_limits", "mode"}
      /\ m' = ApplyOp(m, OpOf(r))
      /\ r.op = "bus_read" /\ r.a.a \in DocumentedRead => BusRead(m, r.a.a) = r.a.r
      /\ r.op = "bus_read" /\ r.a.a = 241 => r.a.r = r.s.bd.dasr
